@@ -219,3 +219,107 @@ Proof.
     destruct (IH _ _ _ A B H) as (LG' & A' & B' & C'). exists LG'. split; [exact A'|]. split; [exact B'|].
     intro x. rewrite C'. cbn [txs_log]. rewrite E. cbn [In]. tauto.
 Qed.
+
+(* the state with which index_utxo_entries starts a block (copied from index_block) *)
+Definition block_start (cfg : config) (h : N) (st : state) : Res bst :=
+  do cb <- (if c_sats cfg then
+              if 0 <? subsidy h then do s <- starting_sat h; Ok [(s, s + subsidy h)] else Ok []
+            else Ok []);
+  Ok (mkB st [] (subsidy h) (s_lost st) (s_blessed st) (s_cursed st) (s_unbound st)
+          (next_seq_of (s_entries st)) cb []).
+
+Definition block_log (cfg : config) (h : N) (blk : block) (st : state) : log :=
+  let insc := c_first cfg <=? h in
+  match block_start cfg h st with
+  | Ok b0 =>
+    txs_log cfg h insc (tl blk) b0 ++
+    match blk, index_txs cfg h insc (tl blk) b0 with
+    | t0 :: _, Ok b1 => [(t0, b1)]
+    | _, _ => []
+    end
+  | _ => []
+  end.
+
+Fixpoint chain_log (cfg : config) (h : N) (c : list block) (st : state) : log :=
+  match c with
+  | [] => []
+  | blk :: r =>
+    block_log cfg h blk st ++
+    match index_block cfg h blk st with Ok st' => chain_log cfg (h + 1) r st' | _ => [] end
+  end.
+
+Record PInvS (LG : log) (st : state) : Prop := {
+  ps_pairs : forall p c, In (p, c) (s_children st) ->
+     exists t b0 ec ep, In (t, b0) LG /\ tgN c (s_entries st) = Some ec /\ fst (i_id ec) = t_id t /\
+       tgN p (s_entries st) = Some ep /\ RevBy t b0 (i_id ep);
+  ps_idb : forall i s, tgP i (s_id2seq st) = Some s -> exists e, tgN s (s_entries st) = Some e /\ i_id e = i
+}.
+
+Lemma index_block_pinv : forall cfg h blk LG st st',
+  PInvS LG st -> index_block cfg h blk st = Ok st' ->
+  exists LG', PInvS LG' st' /\ (forall x, In x LG' <-> In x (block_log cfg h blk st) \/ In x LG).
+Proof.
+  intros cfg h blk LG st st' [PP PI] H. unfold index_block in H. unfold block_log, block_start. cbv zeta.
+  dbind H. rename a into cb. cbn [bind]. dbind H. rename a into b1. dbind H. rename a into b2. inv H.
+  match type of E0 with index_txs _ _ _ _ ?B = _ => set (b0 := B) in * end.
+  assert (HP0 : PInv LG b0).
+  { subst b0. split; cbn; auto. intros s e He. unfold next_seq_of. destruct (s_entries st) as [|kv r] eqn:EE; [discriminate|]. rewrite <- EE in *.
+    assert (Hk : In s (map fst (s_entries st))) by (apply (tget_keys N.eqb N.eqb_eq); congruence).
+    apply maxkey_ge in Hk. lia. }
+  assert (HF0 : PF LG (b_flot b0)) by (subst b0; cbn; intros f []).
+  destruct (index_txs_pinv _ _ _ _ _ _ _ HP0 HF0 E0) as (L1 & A1 & B1 & C1).
+  destruct blk as [|t0 r].
+  - inv E1. exists L1. split.
+    + destruct A1 as [PP1 PI1 _]. split; cbn [s_children s_entries s_id2seq]; auto.
+    + intro x. rewrite C1. rewrite app_nil_r. tauto.
+  - cbn [tl] in *. rewrite E0. destruct (index_tx_pinv _ _ _ _ _ _ _ _ A1 B1 E1) as [A2 _].
+    exists ((t0, b1) :: L1). split.
+    + destruct A2 as [PP2 PI2 _]. split; cbn [s_children s_entries s_id2seq]; auto.
+    + intro x. cbn [In]. rewrite C1, in_app_iff. cbn [In]. tauto.
+Qed.
+
+Lemma index_chain_pinv : forall cfg c h LG st st',
+  PInvS LG st -> index_chain cfg h c st = Ok st' ->
+  exists LG', PInvS LG' st' /\ (forall x, In x LG' <-> In x (chain_log cfg h c st) \/ In x LG).
+Proof.
+  intros cfg c. induction c as [|blk r IH]; intros h LG st st' HP H; cbn [index_chain] in H.
+  - inv H. exists LG. split; auto. intro x. cbn. tauto.
+  - dbind H. destruct (index_block_pinv _ _ _ _ _ _ HP E) as (L1 & A1 & C1).
+    destruct (IH _ _ _ _ A1 H) as (L2 & A2 & C2). exists L2. split; auto.
+    intro x. rewrite C2, C1. cbn [chain_log]. rewrite E, in_app_iff. tauto.
+Qed.
+
+(* the log only contains transactions of the chain *)
+Lemma txs_log_txs : forall cfg h insc l b x, In x (txs_log cfg h insc l b) -> In (fst x) l.
+Proof.
+  intros cfg h insc l. induction l as [|t r IH]; intros b x H; cbn [txs_log] in H; [destruct H|].
+  destruct H as [<-|H]; [left; reflexivity|]. right. destruct (index_tx cfg h insc false t b); [eapply IH; eauto | destruct H | destruct H].
+Qed.
+
+Lemma chain_log_txs : forall cfg c h st x, In x (chain_log cfg h c st) -> exists blk, In blk c /\ In (fst x) blk.
+Proof.
+  intros cfg c. induction c as [|blk r IH]; intros h st x H; cbn [chain_log] in H; [destruct H|].
+  apply in_app_or in H. destruct H as [H|H].
+  - exists blk. split; [left; reflexivity|]. unfold block_log in H. destruct (block_start cfg h st) as [b0| |]; try destruct H.
+    apply in_app_or in H. destruct H as [H|H].
+    + apply txs_log_txs in H. destruct blk; [destruct H | right; exact H].
+    + destruct blk as [|t0 r0]; [destruct H|]. destruct (index_txs cfg h (c_first cfg <=? h) (tl (t0 :: r0)) b0); try destruct H.
+      * subst x. left. reflexivity.
+      * destruct H.
+  - destruct (index_block cfg h blk st); try destruct H. destruct (IH _ _ _ H) as (b & B1 & B2). exists b. split; [right|]; auto.
+Qed.
+
+Theorem provenance_history : forall cfg c st,
+  index_chain cfg 0 c empty_state = Ok st ->
+  forall p ch, In (p, ch) (s_children st) ->
+    exists t b0 ec ep,
+      In (t, b0) (chain_log cfg 0 c empty_state) /\ (exists blk, In blk c /\ In t blk) /\
+      tget N.eqb ch (s_entries st) = Some ec /\ fst (i_id ec) = t_id t /\
+      tget N.eqb p (s_entries st) = Some ep /\ RevBy t b0 (i_id ep).
+Proof.
+  intros cfg c st H p ch Hc.
+  destruct (index_chain_pinv cfg c 0 [] empty_state st) as (LG & [PP _] & C); auto.
+  { split; cbn; [intros ? ? []|intros; discriminate]. }
+  destruct (PP p ch Hc) as (t & b0 & ec & ep & A & B & D & E & F). apply C in A. destruct A as [A|[]].
+  exists t, b0, ec, ep. split; auto. split; [|auto]. apply (chain_log_txs _ _ _ _ _ A).
+Qed.
